@@ -45,7 +45,7 @@ var props = []Prop{
 		Harnesses: []H{{Pkg: "ecs", Fn: "HC01_Step"}, {Pkg: "ecs", Fn: "HC01_Step", Tags: "tiny", Tier: "thorough"}, {Pkg: "ecs", Fn: "HC08_Batch"}, {Pkg: "ecs", Fn: "HC01_TwoSmall"}, {Pkg: "ecs", Fn: "HDeep"}, {Pkg: "ecs", Fn: "HDeep", Tags: "tiny"}, {Pkg: "ecs", Fn: "HManyTables"}, {Pkg: "ecs", Fn: "HPagedSlice"},
 			{Pkg: "ecs", Fn: "HC01_TwoSmall", Tags: "tiny", Tier: "thorough"}, {Pkg: "ecs", Fn: "HC01_Two", Tier: "thorough", Minutes: 60}},
 		Conform: stdConform,
-		Bounds:  "8 scripted prefixes (fresh, two tables, mixed sizes incl. zero-sized, two relation parents, dead target, retired table, recycled ids depth 3, two relation types) x 1 symbolic operation out of 11 kinds with every legal argument choice (entity, add/remove subsets of 6 component types, target) x 3 configurations (quick) / 6 (thorough: all 4 ID profiles, capacity increments 1..3, relation increments 1..2); quick also runs every pair of two operations from a reduced-argument set of 6 kinds (create with values, add / remove one component, child with target, RemoveEntity, Relations.Set) on every prefix (capacity increment 1; thorough: 1..2, both builds); HManyTables / HPagedSlice: 48 component-set tables and 36 relation tables in one node (beyond the 32-element pages of the table storage) with symbolic payloads, followed by one removal / retarget / batch removal of the relation / death of parents; paged storage lemmas for 1..65 elements with symbolic index; HDeep: every history of 3 (thorough 4) operations from an EMPTY world out of 10 reduced-argument kinds (create plain / with values / child with target, RemoveEntity, retarget, add/remove a component, Reset, Batch.RemoveEntities by mask / relation filter, batch SetRelation, batch add/remove of a component incl. Q variants) with a registered filter watching, 2 ID profiles x 2 capacity increments; thorough adds pairs (any operation with every legal argument, then a reduced-argument operation) on 5 prefixes with ids crossing the 16-id chunk, and the tiny build of the one-step harnesses; payload words fully symbolic; at most 10 entities",
+		Bounds:  "8 scripted prefixes (fresh, two tables, mixed sizes incl. zero-sized, two relation parents, dead target, retired table, recycled ids depth 3, two relation types) x 1 symbolic operation out of 11 kinds with every legal argument choice (entity, add/remove subsets of 6 component types, target) x 3 configurations (quick) / 6 (thorough: all 4 ID profiles, capacity increments 1..3, relation increments 1..2); quick also runs every pair of two operations from a reduced-argument set of 6 kinds (create with values, add / remove one component, child with target, RemoveEntity, Relations.Set) on every prefix (capacity increment 1; thorough: 1..2, both builds); HManyTables / HPagedSlice: 48 component-set tables and 36 relation tables in one node (beyond the 32-element pages of the table storage) with symbolic payloads, followed by one removal / retarget / batch removal of the relation / death of parents; paged storage lemmas for 1..65 elements with symbolic index; HDeep: every history of 3 (thorough 4) operations from an EMPTY world out of 10 reduced-argument kinds (create plain / with values / child with target, RemoveEntity, retarget, add/remove a component, Reset, Batch.RemoveEntities by mask / relation filter, batch SetRelation, batch add/remove of a component incl. Q variants) with a registered filter watching, 2 ID profiles x 2 capacity increments; thorough adds pairs (any operation with every legal argument, then a reduced-argument operation) on 3 prefixes with ids crossing the 16-id chunk, and the tiny build of the one-step harnesses; payload words fully symbolic; at most 10 entities",
 		Outside: "histories longer than prefix+2 operations; more than 10 entities; component types other than the 6 of the universe; capacity increments > 3",
 	},
 	{
